@@ -96,7 +96,18 @@ func reprMap(it hashmap.Iterator, n, indent int) string {
 	}
 	// Sort the pairs. See the godoc of CmpTotal for the sorting algorithm.
 	sort.Slice(pairs, func(i, j int) bool {
-		return CmpTotal(pairs[i][0], pairs[j][0]) == CmpLess
+		o := CmpTotal(pairs[i][0], pairs[j][0])
+		if o == CmpEqual {
+			// Keys that CmpTotal can't tell apart (like two maps) would
+			// otherwise appear in an order that depends on how the map was
+			// built; break the tie using their representations.
+			ri, rj := ReprPlain(pairs[i][0]), ReprPlain(pairs[j][0])
+			if ri != rj {
+				return ri < rj
+			}
+			return ReprPlain(pairs[i][1]) < ReprPlain(pairs[j][1])
+		}
+		return o == CmpLess
 	})
 	// Print the pairs.
 	for _, pair := range pairs {
